@@ -154,6 +154,21 @@ CLAIMED = {
         "with another hash seed must keep fingerprint, design variables and decodes; GML export must contain every node and edge.",
    note=BASE + "Partial: pickle and hash() are runtime behaviour outside the model (the theorems assume a hash that is a function of the structural key); DOT export is not parsed.",
    technique="Coq theorems about an extracted Gallina model + differential correspondence with the implementation", design="§6 C18"),
+ 'C12': dict(
+   text="Theorems: the priority-area search (_get_best) never raises and returns a row of the table, the row of the first allowed "
+        "non-empty area that is best there (largest distance correlation then smallest imputation ratio; or smallest ratio then "
+        "largest information index); searched by information index over all areas it finds a row in every non-empty table; the "
+        "staged selection returns the default manager iff there are no matrices, otherwise a constructed candidate of a created "
+        "family, and raises only if no candidate of any family could be constructed; a keyed store shared by all processes "
+        "delivers, for every history of cached/uncached requests and resets, a result acceptable for the settings asked, provided "
+        "settings sharing a key accept the same results -- and a collision makes a cached answer wrong; settings with equal cache "
+        "keys have the same valid matrices under every pattern. The real selector runs under deterministic time-out schedules and "
+        "with tiny real time limits; stage/family/candidate are compared with the extracted select on the logged scores; the "
+        "returned manager must pass C10's coding_verdict and have no variables when no pattern has two matrices; cache histories "
+        "(cold, warm, no-cache, reset, other process with another hash seed) are compared with fresh computations and the "
+        "extracted enum_M; key equality of settings pairs is compared with the extracted key_eq.",
+   note=BASE + "Partial: only the installed numeric stack is exercised; crashes during a cache write are not modelled; md5 and Python's tuple hash are taken as collision free. F1 fixed by a0e230c.",
+   technique="Coq theorems about an extracted Gallina model + differential correspondence with the implementation", design="§6 C12"),
 }
 NA_REASON = "machinery under construction in this round; not yet claimed"
 
